@@ -183,6 +183,12 @@ def _quant(E, is_all, gens, idx, elt, st):
     finally:
         st.bound.pop()
         del st.qvars[len(st.qvars) - len(bs):]
+    if isinstance(it, AnyOf):
+        from .solve import trig
+        # whole-sort quantifier: explicit trigger (the prover mentions trig(c) for every skolem constant c)
+        if is_all:
+            return z3.ForAll(bs, z3.Implies(z3.And([guard] + conds), body), patterns=[trig(bs[0])])
+        return z3.Exists(bs, z3.And([guard] + conds + [body, trig(bs[0])]))
     if is_all:
         return z3.ForAll(bs, z3.Implies(z3.And([guard] + conds), body))
     return z3.Exists(bs, z3.And([guard] + conds + [body]))
@@ -288,7 +294,7 @@ def _list_comp(E, gens, elt, st):
             e_at = z3.substitute(e.t, (i, i))
             lo_shift = z3.simplify(i - idx)   # i = idx + lo
             ej = z3.substitute(e.t, (i, j if (z3.is_int_value(lo_shift) and lo_shift.as_long() == 0) else j + lo_shift))
-            facts = [Q.Length(R.t) == z3.If(n < 0, 0, n),
+            facts = [Q.Length(R.t) == (n if (z3.is_app(n) and n.decl().name() == "len") else z3.If(n < 0, 0, n)),
                      z3.ForAll([j], z3.Implies(z3.And(0 <= j, j < n), Q.At(R.t, j) == ej), patterns=[Q.At(R.t, j)])]
             E.assumptions.add("schematic rule MAP: [e(x) for x in xs] is the list R with len(R)=len(xs) and R[j]=e(xs[j])")
             return R, facts
@@ -298,7 +304,7 @@ def _list_comp(E, gens, elt, st):
         fidx = z3.Function(E.fresh_name("fm_idx"), z3.IntSort(), z3.IntSort())
         finv = z3.Function(E.fresh_name("fm_inv"), z3.IntSort(), z3.IntSort())
         j, j2, k = z3.Int(E.fresh_name("fj")), z3.Int(E.fresh_name("fj2")), z3.Int(E.fresh_name("fk"))
-        nn = z3.If(n < 0, 0, n)
+        nn = n if (z3.is_app(n) and n.decl().name() == "len") else z3.If(n < 0, 0, n)
         lenR = Q.Length(R.t)
         _sh = (lambda t: t) if (z3.is_int_value(lo_shift) and lo_shift.as_long() == 0) else (lambda t: t + lo_shift)
         c_at = lambda t: z3.substitute(c, (i, _sh(t)))
